@@ -44,3 +44,13 @@ package merkle
 //@   requires len(rootHash) > 0     // with an empty root a failed computation (nil) compares equal: callers pass 32-byte roots
 //@   ensures [leafBound] err == nil ==> content(sp.LeafHash) == leafH(content(leaf))
 //@   ensures [rootBound] err == nil ==> compOK(toInt64(sp.Index), toInt64(sp.Total), sp.Aunts[:0], len(sp.Aunts)) && compVal(toInt64(sp.Index), toInt64(sp.Total), content(sp.LeafHash), sp.Aunts[:0], len(sp.Aunts)) == content(rootHash)
+
+// ---------------------------------------------------------------- C13/C18: proofs on the wire
+//@ func ProofFromProto(pb *kcrypto.Proof) (r *SimpleProof, err error)
+//@   for C13 C18
+//@   ensures pb == nil ==> err != nil
+//@   ensures [fieldsCopied] err == nil ==> r != nil && fresh(r) && r.Total == pb.Total && r.Index == pb.Index && r.LeafHash == pb.LeafHash && r.Aunts == pb.Aunts
+//@ func (sp *SimpleProof) ToProto() (r *kcrypto.Proof)
+//@   for C13 C18
+//@   ensures sp == nil ==> r == nil
+//@   ensures [fieldsCopied] sp != nil ==> fresh(r) && r.Total == sp.Total && r.Index == sp.Index && r.LeafHash == sp.LeafHash && r.Aunts == sp.Aunts
